@@ -31,6 +31,15 @@ static inline iora_skey iora_skey_make(const char *p, size_t n)
 }
 static inline bool iora_skey_empty(const iora_skey *k) { return k->n == 0; }
 static inline size_t iora_skey_size(const iora_skey *k) { return k->n; }
+/* iteration ghost bookkeeping on insert/erase by key: the number of entries moves by one and - iteration order being unspecified (rehash) - the
+ * ghost entry may afterwards sit at ANY position.  Saturating, so that harnesses that never iterate need not constrain n. */
+#ifndef IORA_NATIVE
+#define IORA_SMAP1_REPOS(m) { if ((m)->has) { (m)->gpos = nondet_size_t(); IORA_ASSUME((m)->gpos < (m)->n); } }
+#else
+#define IORA_SMAP1_REPOS(m) { }
+#endif
+#define IORA_SMAP1_GROW(m) { if ((m)->n < (size_t)-1) (m)->n++; IORA_SMAP1_REPOS(m) }   /* braces, not do{}while(0): see iora_base.h canaries */
+#define IORA_SMAP1_SHRINK(m) { if ((m)->n > 0) (m)->n--; IORA_SMAP1_REPOS(m) }
 #define IORA_SMAP1(M, V, VDEFAULT) \
 typedef struct { bool has; V val; V other; bool touched; bool gtouched; iora_skey lastkey; \
                  size_t n; size_t gpos; /* iteration ghost: number of entries, position of the ghost entry (has => gpos < n) */ } M; \
@@ -43,13 +52,15 @@ static inline bool M##_contains(const M *m, iora_skey k) { return k.is_g ? m->ha
 /* m[k]: inserts a value-initialised entry when k is absent */ \
 static inline V *M##_index(M *m, iora_skey k) \
 { m->touched = true; m->lastkey = k; \
-  if (k.is_g) { m->gtouched = true; if (!m->has) { m->has = true; m->val = (VDEFAULT); } return &m->val; } \
+  if (k.is_g) { m->gtouched = true; if (!m->has) { m->has = true; m->val = (VDEFAULT); IORA_SMAP1_GROW(m) } return &m->val; } \
+  if (nondet_bool()) IORA_SMAP1_GROW(m)                  /* another key may have been inserted */ \
   return &m->other; } \
 /* m.erase(key) -> number of erased entries */ \
 static inline size_t M##_erase(M *m, iora_skey k) \
 { m->touched = true; m->lastkey = k; \
-  if (k.is_g) { m->gtouched = true; bool p = m->has; m->has = false; return p ? 1 : 0; } \
-  return nondet_bool() ? 1 : 0; }
+  if (k.is_g) { m->gtouched = true; bool p = m->has; m->has = false; if (p) IORA_SMAP1_SHRINK(m) return p ? 1 : 0; } \
+  if (nondet_bool() && m->n > (m->has ? 1u : 0u)) { IORA_SMAP1_SHRINK(m) return 1; } \
+  return 0; }
 /* ---- iteration (`for (auto it = m.begin(); it != m.end(); ) { ... it = m.erase(it) / ++it }`): the map has an arbitrary ghost number of
  * entries `n`; the ghost key's entry (if present) sits at the arbitrary position `gpos < n`; every other position holds some other key with an
  * ARBITRARY value (drawn anew at every access).  A cursor is {map, index}.  erase(cursor) removes the entry under the cursor: the index then
